@@ -274,6 +274,9 @@ class Bounds:
             return iv_max(self.iv(a[0]), self.iv(a[1]))
         if op in ("linalg.vector_norm", "linalg.matrix_norm"):
             return Iv(0.0, INF, False, True)
+        if op == "np.finfo_eps":
+            # machine epsilon of a floating-point type: 0 < eps < 1
+            return Iv(0.0, 1.0, True, True)
         if op in ("np.amax", "np.max", "np.amin", "np.min") and len(a) >= 1:
             # the largest / smallest entry lies within the bounds that hold for every entry
             return self.iv(a[0])
